@@ -167,13 +167,20 @@ CHECKS = {
              'reported no failure, every example clean keeps is matched by a returned expression; clean discards exactly '
              'nulls, zero counts and (on request) empties; the check is complete. (3) The extend loop always ends (each unsampled '
              'pass that does not stop adds a stored string the working examples lacked: C03_loop_terminates) and when it ends '
-             'every string the last check found unmatched is a working example (C03_last_failures_are_working_examples). The extracted model replays every real run '
+             'every string the last check found unmatched is a working example (C03_last_failures_are_working_examples). (4) At the '
+             'level of the TEXT: Rexpy/Regex.v models the regular-expression syntax rexpy writes (parser to quantified character '
+             'sets, matcher); for renderable patterns without extra letters the rendered text - escaped or not, padded, with '
+             'capture groups - parses and the model\'s reading accepts every string the pattern matches fragment by fragment '
+             '(C03_rendered_text_matches), so each working example is matched by one of the batch\'s expressions as text '
+             '(C03_batch_text_covers); the model\'s reading is compared with CPython re on every evaluated (expression, string) '
+             'pair. The extracted model replays every real run '
              'from its recorded oracle tables (group splits, re.match results, random.sample choices) and must return exactly '
              'the same expressions and working examples; the oracle hypotheses of (1) are evaluated by the extracted model on '
              'every recorded split; character-level semantics, regex texts and classifications are swept against CPython re; '
              'the property itself is checked on every run.',
-        note='partial: the step from what a fragment denotes to what its rendered text means to CPython re (escape / bracket / '
-             'quantifier rendering) is validated by the sweeps, the replay and the coverage oracle, not yet by a parser theorem; '
+        note='partial: the text theorem covers runs without extra letters (with them the category expressions are alternations '
+             'such as ([^\\W_]|[.-]), outside the modelled syntax: those runs rest on the fragment-level theorem, sweeps and '
+             'oracle); that CPython re reads the text as Regex.v does is validated by correspondence, not proved; '
              're.match, the group split and random.sample are oracle tables; pruning options and the portable/grep re-rendering '
              'are outside the loop theorem. Known finding: non-ASCII decimal digits under portable/grep.',
         technique='Coq proof (batch/refine coverage by invariants over the accumulators and (V)RLE widening; loop/check/clean '
@@ -183,13 +190,17 @@ CHECKS = {
     'C13': dict(
         text='Theorems over the Extractor model: every returned expression is ^...$, there are never more expressions than '
              'stored distinct working examples, nothing is returned when clean keeps nothing, the fragments chosen do not '
-             'depend on the tag option and a tagged fragment is the untagged one inside one capturing group. The extracted '
+             'depend on the tag option and a tagged fragment is the untagged one inside one capturing group; each refined pattern '
+             'matches one of the working examples fragment by fragment (C13_each_matches_some) and, for runs without extra '
+             'letters, as TEXT: every expression of a batch parses in the modelled syntax (Rexpy/Regex.v) and the model\'s '
+             'reading of it accepts one of the working examples (C13_text_each_matches_some). The extracted '
              'model replays every real run (exact expressions); each returned expression is compiled, checked for anchoring, '
              'for matching an example, for duplicates and count; every run is repeated with tagging flipped and both '
              'results are compared on the examples and near-miss probes.',
-        note='partial: "matches at least one example", "no expression twice" and the language equality of tagged and untagged '
-             'expressions are decided by the run-time oracle and the replay, not by a theorem; re.compile / re.match are CPython\'s.',
-        technique='Coq proof (shape/count/tagging theorems over the Extractor model) + extracted-model replay + expression oracle',
+        note='partial: "no expression twice" and the language equality of tagged and untagged expressions are decided by the '
+             'run-time oracle and the replay, not by a theorem; that CPython re reads the text as Regex.v does is validated by '
+             'correspondence on every evaluated pair, not proved; runs with extra letters are outside the text theorem.',
+        technique='Coq proof (shape/count/tagging/matches-an-example theorems over the Extractor and regex-text models) + extracted-model replay + regex-model correspondence with CPython re + expression oracle',
         design='7 C13'),
     'C14': dict(
         text='Theorems over the executable model of the whole Extractor: (1) for every character table, option set, oracle '
